@@ -22,7 +22,7 @@
 From Coq Require Import ZArith List Bool Lia Znumtheory.
 From PySnark.Base Require Import FieldZ Bits.
 From PySnark.Model Require Import Lc Sym Good Gadgets Api Prog.
-From PySnark.Proofs Require Import Meta Wp WpBase FieldOk GadgetsOK Values Complete NoRaise NoRaiseGadgets OpValues.
+From PySnark.Proofs Require Import Meta Wp WpBase FieldOk GadgetsOK Values Complete NoRaise NoRaiseGadgets OpValues PowValues.
 Import ListNotations.
 Open Scope Z_scope.
 
@@ -137,7 +137,14 @@ Theorem C05_op_rshift_secret_int : forall x k, 0 <= k -> returns (pyop c ORshift
                 | PInt z => z = 0 /\ (nbits c <= Z.to_nat k)%nat
                 | _ => False end).
 Proof. exact (op_rshift_int ins ig c s sg I). Qed.
+(* x ** k with a public exponent 1 <= k <= 400 (k - 1 multiplication gadgets) is the integer power; x << k with a public shift is x * 2^k *)
+Theorem C05_op_pow_secret_int : forall x k, NoRaiseGadgets.sc s x -> 1 <= k <= 400 -> returns (pyop c OPow (PLC x) (PInt k)) s sg (islc (fun r => r = v x ^ k)).
+Proof. exact (PowValues.op_pow_int ins ig c s sg I). Qed.
+Theorem C05_op_lshift_secret_int : forall x k, 0 <= k <= 100000 -> returns (pyop c OLshift (PLC x) (PInt k)) s sg (islc (fun r => r = v x * 2 ^ k)).
+Proof. exact (PowValues.op_lshift_int ins ig c s sg). Qed.
 End C05.
+Print Assumptions C05_op_pow_secret_int.
+Print Assumptions C05_op_lshift_secret_int.
 
 (* ---- inside the documented domain the operations do not raise (and return the Python value) ---- *)
 Section C05_domain.
